@@ -284,6 +284,8 @@ def items(tier, repo=None):
         yield it
     for it in builtin_annotation_items():
         yield it
+    for label, _, specs in route_head_items():
+        yield label, specs
     if tier == 'thorough':
         # pairs of deviations on the small bases
         for bi, text in enumerate(SMALL_BASES):
@@ -440,6 +442,24 @@ QUAL_SITES = [('field', 'struct H\n    f %s\n'), ('field-with-example', 'struct 
               ('deprecated-by', 'route h(Void, Void, Void) deprecated by %s\n'), ('annotation-type', 'annotation Hh = %s(p=1)\n'), ('annotation-type-noargs', 'annotation Hh = %s()\n'),
               ('annotation-use', 'struct H\n    f Int32\n        @%s\n'), ('subtype', 'struct H\n    union\n        s %s\n    f Int32\n'), ('patch', 'patch struct %s\n    zz Int32?\n'),
               ('tag', 'union H\n    t %s\n'), ('param-type', 'annotation_type Hh\n    p %s\n'), ('import', 'import %s\n')]
+
+
+ROUTE_HEAD_TYPES = ['', 'Void', 'Void, Void', 'Void, Void, Void', 'Void, Void, Void, Void', 'Void,', 'Void, Void,', ', Void, Void']
+ROUTE_HEAD_VERSIONS = ['', ':2', ':0', ':']
+ROUTE_HEAD_DEPRECATIONS = ['', ' deprecated', ' deprecated by r0', ' deprecated by r0:2', ' deprecated by', ' deprecated by r0:', ' by r0']
+ROUTE_HEAD_BODIES = ['', '    "doc"\n']
+
+
+def route_head_items():
+    """The head of a route definition as a product: number of types in the signature x version x deprecation x body (lang_ref grammar:
+    Route ::= 'route' Identifier (':' VersionNumber)? '(' TypeRef ',' TypeRef ',' TypeRef ')' ...).  Yields (label, valid, specs)."""
+    for ty in ROUTE_HEAD_TYPES:
+        for ver in ROUTE_HEAD_VERSIONS:
+            for dep in ROUTE_HEAD_DEPRECATIONS:
+                for body in ROUTE_HEAD_BODIES:
+                    text = 'namespace rh\n\nroute r0(Void, Void, Void)\n\nroute r0:2(Void, Void, Void)\n\nroute r%s(%s)%s\n%s' % (ver, ty, dep, body)
+                    valid = ty == 'Void, Void, Void' and ver in ('', ':2') and dep in ('', ' deprecated', ' deprecated by r0', ' deprecated by r0:2')
+                    yield 'route-head:r%s(%s)%s%s' % (ver, ty, dep, '+doc' if body else ''), valid, [('rh.stone', text)]
 
 
 def qualifier_items():
